@@ -8,6 +8,7 @@
    published checkpoint).  All theorems quantify over EVERY list of calls: duplicates, stale and future ids,
    unknown senders, creations while one is pending, savepoint joins, restarts at any point. *)
 From RV Require Import Base.Mach Model.SnapStore Proofs.C12_SnapStore Proofs.C12_Inert.
+From RV Require Model.PathSeg Model.Publish Proofs.C13_Publish.
 Open Scope N_scope.
 
 Theorem spec_accepts_every_history : forall acts, mon_run mon_init (trace repaired acts) = [].
@@ -97,3 +98,28 @@ Example start_from_savepoint :
   nth 7 (run repaired init acts) RFault = RCreate false 2 /\
   nth 9 (run repaired init acts) RFault = RAck true None.
 Proof. vm_compute. repeat split. Qed.
+
+(* "used for recovery ... ids only grow", under overlapping publications (Model/Publish.v, every schedule of
+   Start / write / locked update / remove / notifier steps, any number of publications in flight): within a store
+   lifetime the id of the checkpoint the store would recover from (completedSnapshots) never decreases - a
+   publication whose file write returns after a newer checkpoint was published does not replace it *)
+Theorem current_checkpoint_never_goes_back : forall base sched st,
+  (base <= PathSeg.max64)%N ->
+  let s := Publish.exec Publish.prepaired (Publish.boot Publish.prepaired base) sched in
+  match st with
+  | Publish.Crash | Publish.Rewind _ => True
+  | _ => (C13_Publish.cur_id s <= C13_Publish.cur_id (Publish.exec1 Publish.prepaired s st))%N
+  end.
+Proof. exact C13_Publish.current_never_goes_back. Qed.
+Print Assumptions current_checkpoint_never_goes_back.
+
+(* seeded C12r3-3 / D17: with the unguarded reset the current checkpoint goes back from 3 to 2 *)
+Theorem unguarded_reset_goes_back :
+  exists sched st, let q := Publish.MkPQ false true in
+    let s := Publish.exec q (Publish.boot q 0) sched in
+    (C13_Publish.cur_id (Publish.exec1 q s st) < C13_Publish.cur_id s)%N.
+Proof.
+  exists [Publish.Start 1; Publish.W 1; Publish.U 1; Publish.Start 2; Publish.Start 3; Publish.W 3; Publish.U 3; Publish.W 2], (Publish.U 2).
+  vm_compute. reflexivity.
+Qed.
+Print Assumptions unguarded_reset_goes_back.
